@@ -16,7 +16,9 @@ THEOREMS = ["wsd_exactly_once", "wsd_no_loss", "wsd_quiescent_content",
             "wsd_tso_exactly_once", "wsd_tso_no_loss", "wsd_tso_release_store_refuted"]
 PUSH, POP, STEAL = 1, 2, 3
 EMPTY, ABORT = -1, -2
+POISON = (0x5a5a5a5a5a5a5a5a, -777777)   # h_wsd_free fills a freed array with 0x5a bytes
 LABEL = "wsd"
+H_MAX_OPS = 64
 MODEL = "wsd"
 
 
@@ -94,10 +96,28 @@ def monitor(case, tr, raw):
     clean = [True] * nthreads    # no owner call overlapped this (steal) call
     unret_at_start = [0] * nthreads
     stuck = False
+    freed = set()                # arrays the implementation freed (h_wsd_free events)
+    holding = {}                 # tid -> array whose pointer it loaded and whose slot it has yet to read
     for (t, loc, kind, val) in tr:
+        if kind == 919 and loc >= 990:
+            k = loc - 990
+            freed.add(k)
+            for u, a in holding.items():
+                if a == k:
+                    return "array %d freed while thread %d holds its pointer and has yet to read a slot of it" % (k, u)
+            continue
         if kind == 919:
             stuck = True
             continue
+        if kind in (9, 19) and loc >= 1000:
+            if loc // 1000 in freed:
+                return "slot of freed array %d accessed (%s by thread %d, slot %d)" % (
+                    loc // 1000, "read" if kind == 9 else "write", t, loc % 1000)
+            holding.pop(t, None)
+        if loc == 2 and kind == 25:
+            holding[t] = val
+        if kind == 909:
+            holding.pop(t, None)
         if t >= nthreads or opidx[t] >= len(progs[t]):
             return "event of thread %d beyond its program" % t
         if kind != 909 and not inop[t]:
@@ -122,6 +142,8 @@ def monitor(case, tr, raw):
         else:
             who = "pop" if op == POP else "steal"
             if val not in (EMPTY, ABORT):
+                if val in POISON:
+                    return "%s by thread %d returned the content of freed memory" % (who, t)
                 if val not in order:
                     return "%s by thread %d returned %d, which was never pushed" % (who, t, val)
                 if val in returned:
@@ -260,10 +282,46 @@ def gen_cases(ctx, tier):
             sched = [0] * 5 + [1] * 1 + [2] * 5 + [0] * k + [1] * 4
             cases.append(core.fmt_case([1, 0, 800], [p0, [(STEAL, 0)], [(STEAL, 0)]], sched))
             nb += 2
+    # (5) a thief stalled right after loading the array pointer (3 accesses into
+    #     steal) while the owner grows the deque two and three times, resumed at
+    #     every later point of the owner's run; plus random variants
+    ns = 0
+    for npush in (4, 5, 8, 9):
+        p0 = drained([(PUSH, 30 + j) for j in range(npush)])
+        osteps, _, _ = seq_steps(1, [(PUSH, 0)] * npush)
+        for hold in (3, 4):
+            ks = range(0, osteps - 5 + 1) if hold == 3 else range(0, osteps - 5 + 1, 5)
+            for k in ks:
+                sched = [0] * 5 + [1] * hold + [0] * k + [1] * (6 - hold)
+                cases.append(core.fmt_case([1, 0, 900], [p0, [(STEAL, 0), (STEAL, 0)]], sched))
+                ns += 1
+    for _ in range(300 if tier == "quick" else 3000):
+        lg = rng.choice([0, 1, 1, 2])
+        pre = rng.randint(1, 3)
+        body = [(PUSH, 40 + j) for j in range(pre)]
+        tok = 60
+        for _ in range(rng.randint(4, 12)):
+            if rng.random() < 0.85:
+                body.append((PUSH, tok)); tok += 1
+            else:
+                body.append((POP, 0))
+        p0 = drained(body)[:H_MAX_OPS]
+        nth = rng.choice([1, 2, 2])
+        psteps, _, _ = seq_steps(lg, body[:pre])
+        total, _, _ = seq_steps(lg, body)
+        sched = [0] * psteps
+        for th in range(1, nth + 1):
+            sched += [th] * 3                      # loaded top, bottom, array pointer
+        sched += [0] * rng.randint(0, total - psteps + 6)
+        sched += core.random_sched(rng, 1 + nth, rng.randint(2, 30), rng.randrange(3))
+        cases.append(core.fmt_case([lg, rng.choice([0, 0, -2]), 900],
+                                   [p0] + [[(STEAL, 0)] * rng.randint(1, 3) for _ in range(nth)], sched))
+        ns += 1
     ctx.coverage["case_distribution"] = {"exhaustive_owner_call_x_steal": n_ex,
                                          "sampled_growth_and_two_thief_races": n_cov,
                                          "random_programs": nrand, "sequential": nseq,
-                                         "boundary": nb, "total": len(cases)}
+                                         "boundary": nb, "stalled_thief_across_growths": ns,
+                                         "total": len(cases)}
     return cases
 
 
